@@ -155,6 +155,10 @@ idl_a_demux_feed		(vbi_idl_demux *	dx,
 				/* Discard repeat packet. */
 				return TRUE;
 			}
+		} else {
+			/* The awaited repeat packet arrived, nothing
+			   was lost. Further repeats are discarded. */
+			dx->ri = -1;
 		}
 	} else if (0 != (ri & 0xF)) {
 		/* Discard repeat packet. */
